@@ -27,8 +27,7 @@ Definition tok_ok (t : list N * list N) : Prop :=
   (N.of_nat (length (fst t)) < 2 ^ 32)%N /\ (N.of_nat (length (snd t)) < 2 ^ 32)%N.
 
 Lemma un_tokens_roundtrip : forall ts rest, Forall tok_ok ts ->
-  un_tokens (length ts) (flat_map marshal_token ts ++ rest) =
-    match un_tokens 0 rest with _ => UOk ts end.
+  un_tokens (length ts) (flat_map marshal_token ts ++ rest) = UOk ts.
 Proof.
   induction ts as [|[k v] r IH]; intros rest HF; [reflexivity|].
   inversion HF as [|? ? [Hk Hv] Hr]; subst. simpl in Hk, Hv.
